@@ -199,8 +199,7 @@ func init() {
 				c.CfgMin = iptr(pick(r, 0, 1, 30, 255, r.Intn(256)))
 			}
 			if bits&2 != 0 {
-				// a configured start of 255 is indistinguishable from "not configured" in the getters; avoid that corner
-				c.CfgStart = iptr(pick(r, 0, 1, 40, 254, r.Intn(255)))
+				c.CfgStart = iptr(pick(r, 0, 1, 40, 254, 255, r.Intn(256)))
 			}
 			if bits&4 != 0 {
 				c.CfgMax = iptr(pick(r, 0, 1, 200, 255, r.Intn(256)))
